@@ -1,5 +1,5 @@
 (* C15: the statements of Properties/C15.v, assembled from C15Int / C15Gcd / C15Quad / C15Field / C15Machine. *)
-From Coq Require Import ZArith Lia Bool Psatz Znumtheory.
+From Coq Require Import ZArith Lia Bool Znumtheory.
 Require Import Yui.Base.Ring Yui.Model.Euclid.
 Require Import Yui.Proofs.C15Gcd Yui.Proofs.C15Int Yui.Proofs.C15Quad Yui.Proofs.C15Field Yui.Proofs.C15Machine.
 Local Open Scope Z_scope.
